@@ -31,7 +31,15 @@ fn content(kind: u8, len: usize, salt: u64) -> String {
 fn mk_id(shape: &Value, idx: u64, kind: u8) -> WId {
     let len = shape["len"].as_u64().unwrap_or(1) as usize;
     let v6 = shape["v6"].as_bool().unwrap_or(false);
-    let addr: SocketAddr = if v6 { format!("[2001:db8::{:x}]:{}", (idx % 60000) + 1, 7000 + (idx % 100)).parse().unwrap() } else { format!("10.{}.{}.{}:{}", (idx >> 16) & 255, (idx >> 8) & 255, idx & 255, 7000 + (idx % 100)).parse().unwrap() };
+    // IPv6 forms: IPv4-mapped, loopback, unspecified, documentation prefix -- all 16 octets on the wire
+    let addr: SocketAddr = if v6 {
+        match (idx + kind as u64) % 4 {
+            0 => format!("[::ffff:10.1.{}.{}]:{}", (idx >> 8) & 255, idx & 255, 7000 + (idx % 100)).parse().unwrap(),
+            1 => format!("[::1]:{}", 7000 + (idx % 100)).parse().unwrap(),
+            2 => format!("[::]:{}", 7000 + (idx % 100)).parse().unwrap(),
+            _ => format!("[2001:db8::{:x}]:{}", (idx % 60000) + 1, 7000 + (idx % 100)).parse().unwrap(),
+        }
+    } else { format!("10.{}.{}.{}:{}", (idx >> 16) & 255, (idx >> 8) & 255, idx & 255, 7000 + (idx % 100)).parse().unwrap() };
     WId { node_id: content(kind, len, idx), generation: idx, addr }
 }
 
